@@ -886,3 +886,37 @@ def a_scoped_deactivate_leaves_the_general_activation_alone(ctx):
         ctx.ok(key, f.node, 'the collection holding _active_connections is never extended', f)
     elif not n:
         ctx.undecided(key, f.node, 'how the general activation is dropped was not recognised', f)
+
+
+@rule('C08.R6c', min_instances=1)
+def modules_enter_the_node_through_add_module(ctx):
+    """who-may-write: SecNode.add_module is the one place that puts a module into `modules` - and, when it is exported, into
+    `export`, the set a whole-node activate walks and an `activate <module>` is checked against.  A module stored into
+    `self.modules[...]` anywhere else is served (its updates are broadcast) but never part of an activation snapshot"""
+    m = ctx.m
+    SN = 'frappy.secnode.SecNode'
+    ci = m.cls(SN)
+    add = ci.methods.get('add_module')
+    if add is None:
+        raise AnchorMissing('SecNode.add_module not found')
+    ctx.analysed(add)
+    fills_export = any(isinstance(c.func, ast.Attribute) and src(c.func.value) == 'self.export' and c.func.attr in ('append', 'add') for c in calls_in(add.node))
+    ctx.check(fills_export, f'{add.qualname}:an exported module enters the export list', add.node, 'self.export.append(name)',
+              'add_module does not enter the module into secnode.export', add)
+    n = 0
+    for name, f in sorted(ci.methods.items()):
+        for x in body_walk(f.node):
+            if isinstance(x, ast.Subscript) and isinstance(x.ctx, ast.Store) and src(x.value) == 'self.modules':
+                n += 1
+                ctx.analysed(f)
+                st = getattr(x, 'parent', None)
+                again = isinstance(st, ast.Assign) and isinstance(st.value, ast.Name) and \
+                    any(isinstance(o, ast.Call) and call_attr(o) in ('get_module_instance', 'get_module') for o in origins(st.value, f.node))
+                if again:
+                    ctx.ok(f'{f.qualname}:store into self.modules', x, 'stores again what get_module_instance handed back (it went through add_module there)', f)
+                    continue
+                ctx.check(name == 'add_module', f'{f.qualname}:store into self.modules', x, 'in add_module',
+                          f'`{src(getattr(x, "parent", x))}` puts a module into the node without add_module: it never enters secnode.export - a whole-node activate '
+                          'sends no initial update for it (later updates are broadcast all the same) and `activate <module>` is refused', f)
+    if not n:
+        raise AnchorMissing('no store into self.modules found in SecNode')
